@@ -33,6 +33,9 @@ func (fr *Frame) indexAddr(b *ssa.BasicBlock, x *ssa.IndexAddr, st *State, reach
 	case *types.Slice:
 		fr.safe("index", reach, app("bvult", idx, app("g_slen", base.S)), x.Pos())
 		et := u.Elem()
+		if vc.quant > 0 && vc.qcur != "" && idx == vc.qcur && vc.qoff == "" && !mentions(base.S, vc.qcur) {
+			vc.qoff = app("g_soff", base.S)
+		}
 		fr.vals[x] = Val{T: x.Type(), Loc: &Loc{Kind: locElem, Key: vc.elemKey(et), Ref: app("g_sarr", base.S),
 			Idx: vc.def(bvSort(64), "eidx", app("bvadd", app("g_soff", base.S), idx)), CellT: et, T: et}}
 	case *types.Pointer:
@@ -444,16 +447,24 @@ func (fr *Frame) copyBuiltin(b *ssa.BasicBlock, c *ssa.CallCommon, args []Val, s
 	key := vc.elemKey(et)
 	var slen string
 	var srcAt func(j string) string
+	srcArr := ""
 	if isString(c.Args[1].Type()) {
 		slen = app("g_strlen", s)
 		srcAt = func(j string) string { return app("g_strat", s, j) }
 	} else {
 		slen = app("g_slen", s)
 		sarr := vc.def("(Array (_ BitVec 64) "+es+")", "csrc", vc.readCell(st, key, app("g_sarr", s)))
+		srcArr = sarr
 		srcAt = func(j string) string { return fmt.Sprintf("(select %s (bvadd (g_soff %s) %s))", sarr, s, j) }
 	}
 	n := vc.def(bvSort(64), "ncopy", sIte(app("bvslt", app("g_slen", d), slen), app("g_slen", d), slen))
 	fr.frameCheckRef(b, app("g_sarr", d), app("bvsgt", n, bvConst(0, 64)), st, reach, pos, "copy")
 	vc.copyInto(st, et, d, n, srcAt)
+	if srcArr != "" && vc.quant == 0 {
+		// summary of the copy for sequence-equality reasoning: afterwards the first
+		// n elements of d are the first n elements s had before
+		after := vc.def("(Array (_ BitVec 64) "+es+")", "cdst1", vc.readCell(st, key, app("g_sarr", d)))
+		vc.assume(app(vc.sameSeqPred(et), after, app("g_soff", d), srcArr, app("g_soff", s), n))
+	}
 	return &Val{T: resT, S: n}
 }
